@@ -85,12 +85,12 @@ func c13BaseScenarios() []*c13Base {
 
 // one mutation: replace the body of one resource (at its k-th request, -1 = always)
 type c13Mut struct {
-	Base  string `json:"base"`
-	Res   string `json:"res"`
-	Kind  string `json:"kind"`
-	Arg   int    `json:"arg"`
-	Arg2  int    `json:"arg2,omitempty"`
-	Desc  string `json:"desc"`
+	Base string `json:"base"`
+	Res  string `json:"res"`
+	Kind string `json:"kind"`
+	Arg  int    `json:"arg"`
+	Arg2 int    `json:"arg2,omitempty"`
+	Desc string `json:"desc"`
 }
 
 // box walking: offsets of every box start (top level and nested containers)
